@@ -315,7 +315,9 @@ type world struct {
 	parser       chainlib.ChainParser
 	node         *stubNode
 	closeFn      func()
-	cancel       context.CancelFunc
+
+	lateEpochUpdates int
+	cancel           context.CancelFunc
 
 	consumers    []*consumer
 	outsiderNo   sigs.Account // chain answers VerifyPairing = false
@@ -430,6 +432,19 @@ func (w *world) advanceEpoch(to uint64) {
 	w.chain.mu.Unlock()
 	w.pairEpochs(to)
 	w.psm.UpdateEpoch(to)
+	// epoch notifications are not ordered: every third advance is followed by a late notification of an older epoch
+	// that is still above the blocked height (an epoch query answered by a lagging node), every fourth by a repeat of
+	// the current one. Neither may move the provider's epoch window.
+	n := to / epochSize
+	if n%3 == 0 {
+		if k := 1 + n%(epochsInMemory-1); to > k*epochSize && to-k*epochSize > blockedHeight(to) {
+			w.psm.UpdateEpoch(to - k*epochSize)
+			w.lateEpochUpdates++
+		}
+	}
+	if n%4 == 0 {
+		w.psm.UpdateEpoch(to)
+	}
 	// the provider dropped everything at or below the blocked height; so does the consumer side
 	for k := range w.ledger {
 		if k.epoch <= blockedHeight(to) {
